@@ -419,7 +419,69 @@ def check_recovery_gaps(ctx):
     ctx.check(not any(x in r2 for x in blk), inst, "NEVER-AFTER", b.path, "no block is scanned after the tail gap was released", b.where(tail[0]))
 
 
+def check_reservation_bits(ctx):
+    """a queued write remembers the extent it was given in WriteEntry.work_status: the sector number in the low bits, the
+    dirty / quarantined flags above them. The failure paths give exactly that extent back (reserved_sector), so a block has one
+    owner only if (1) every sector number an accepted device can produce stays below the lowest flag bit
+    (MAX_DEVICE_SIZE / FEOX_BLOCK_SIZE <= lowest flag), (2) the flags are distinct single bits and RESERVATION_FLAGS is their
+    union, (3) the reader masks with exactly !RESERVATION_FLAGS, (4) the writer stores the sector it was handed (no flag bits),
+    and (5) nothing else writes the word."""
+    inst = "C05.reservation-bits"
+    vals = {}
+    for name in ("constants::MAX_DEVICE_SIZE", "constants::FEOX_BLOCK_SIZE", "write_buffer::RESERVATION_DIRTY",
+                 "write_buffer::RESERVATION_QUARANTINED", "write_buffer::RESERVATION_FLAGS"):
+        got = [c for p, c in ctx.prog.consts.items() if path_matches(p, name)]
+        if len(got) != 1 or not isinstance(got[0].get("val"), int):
+            ctx.anchor_missing(inst, "constant %s (found %d)" % (name, len(got)))
+            return
+        vals[name.rsplit("::", 1)[-1]] = got[0]["val"]
+    d, q, fl = vals["RESERVATION_DIRTY"], vals["RESERVATION_QUARANTINED"], vals["RESERVATION_FLAGS"]
+    single = all(x > 0 and x & (x - 1) == 0 for x in (d, q))
+    ctx.check(single and d != q and fl == d | q, inst, "PIN", "write_buffer::RESERVATION_FLAGS",
+              "the reservation flags are two distinct single bits and RESERVATION_FLAGS is their union", None, {"dirty": d, "quarantined": q, "flags": fl})
+    low = fl & -fl if fl else 0
+    max_sectors = vals["MAX_DEVICE_SIZE"] // vals["FEOX_BLOCK_SIZE"]
+    ctx.check(max_sectors <= low, inst, "PIN", "constants::MAX_DEVICE_SIZE",
+              "every sector number of an accepted device fits below the lowest reservation flag "
+              "(MAX_DEVICE_SIZE / FEOX_BLOCK_SIZE = %d <= %d)" % (max_sectors, low), None)
+    b = ctx.fn("write_buffer::reserved_sector", inst)
+    if b is not None:
+        rets = [n.id for n in b.nodes if n.kind == "call" and call_matches(n.ev, "bool::then_some")]
+        ctx.check(len(rets) == 1, inst, "anchor", b.path, "reserved_sector yields Some(sector) through then_some (found %d)" % len(rets), None)
+        for r in rets:
+            v = R.arg_expr(b, b.nodes[r], 1)
+            masks = [x for x in v.walk() if x.k == "bin" and x.extra == "BitAnd"]
+            ok = len(masks) == 1 and any(y.k == "un" and y.extra == "Not" and y.a[0].has_const(name="RESERVATION_FLAGS") and y.a[0].k == "const" for y in masks[0].a) \
+                and any(y.has_field("WriteEntry", "work_status") for y in masks[0].a)
+            ctx.check(ok, inst, "PIN", b.path, "the reserved sector is `work_status & !RESERVATION_FLAGS`", b.where(r), {"expr": v.show()})
+    b = ctx.fn("write_buffer::reserve_sector", inst)
+    if b is not None:
+        st = ctx.sites(b, R.field_write("WriteEntry", "work_status", ops=["store"]), inst, exact=1)
+        for x in st:
+            v = R.arg_expr(b, b.nodes[x], 1)
+            ok = v.has_arg(idx=2) and not any(y.k == "bin" for y in v.walk()) and (v.has_call("TryFrom::try_from") or v.has_call("u32::try_from") or v.has_call("try_from"))
+            ctx.check(ok, inst, "PROVENANCE", b.path, "the word stored is the sector handed in, checked to fit (try_from), with no arithmetic or flag bits", b.where(x), {"expr": v.show()})
+    R.fieldw_within(ctx, inst + "/writers", "WriteEntry", "work_status",
+                    ["write_buffer::reserve_sector", "write_buffer::mark_reservation_dirty", "write_buffer::mark_reservation_clean",
+                     "write_buffer::quarantine_reservation", "write_buffer::clear_reserved_sector", "WriteEntry::new", "write_buffer::process_deletions"], floor=5)
+    for fn, op, const, neg in (("write_buffer::mark_reservation_dirty", "fetch_or", "RESERVATION_DIRTY", False),
+                               ("write_buffer::mark_reservation_clean", "fetch_and", "RESERVATION_DIRTY", True),
+                               ("write_buffer::quarantine_reservation", "fetch_or", "RESERVATION_QUARANTINED", False)):
+        b = ctx.fn(fn, inst)
+        if b is None:
+            continue
+        st = ctx.sites(b, R.field_write("WriteEntry", "work_status", ops=[op]), inst, exact=1)
+        for x in st:
+            v = R.arg_expr(b, b.nodes[x], 1)
+            if neg:
+                ok = v.k == "un" and v.extra == "Not" and v.a[0].k == "const" and v.a[0].has_const(name=const)
+            else:
+                ok = v.k == "const" and v.has_const(name=const)
+            ctx.check(ok, inst, "PIN", b.path, "%s touches only the %s bit (the sector bits are preserved)" % (fn.rsplit("::", 1)[-1], const), b.where(x), {"expr": v.show()})
+
+
 def check(ctx):
+    check_reservation_bits(ctx)
     check_coalesce(ctx)
     check_recovery_gaps(ctx)
     check_scrub(ctx)
